@@ -597,9 +597,31 @@ func (e *Engine) run(fn *ssa.Function, entry *State, args []AbsVal) []exitState 
 			for i, phi := range phis {
 				pv := phiVals[i]
 				if pv.k == vInt && isPlainInt(phi.Type()) {
-					// counters: keep small constants only, and only where they can reach a cursor operation
+					// counters: keep small constants only, and only where they can reach a cursor operation;
+					// beyond that a counter that feeds Peek/Move becomes a look-ahead index (eng_idx.go)
 					if c, ok := pv.constInt(); !ok || c > 8 || c < -8 || !fi.relInt[phi] {
-						pv = top
+						if fi.relInt[phi] && len(pv.ints) > 0 {
+							pv = ns.idxOfInts(pv)
+						} else {
+							pv = top
+						}
+					}
+				}
+				if pv.k == vByte {
+					// a byte read at a look-ahead index that is itself renamed by a phi of this block
+					src := pv.idx
+					if src == nil && pv.linked {
+						for j, q := range phis {
+							if c, ok := phiVals[j].constInt(); ok && isPlainInt(q.Type()) && int(c) == pv.coord && fi.relInt[q] {
+								pv.idx = q
+							}
+						}
+					} else if src != nil {
+						for _, q := range phis {
+							if q.Edges[idx] == src {
+								pv.idx = q
+							}
+						}
 					}
 				}
 				if pv.k == vTop {
@@ -733,6 +755,10 @@ func (e *Engine) loopCheck(fi *fnInfo, st *State, from, hdr *ssa.BasicBlock) {
 	}
 	if counterLoop(hdr) {
 		e.check(st, "R-PROGRESS", key+" (counter)", pos, true, "")
+		return
+	}
+	if idxLoop(st, hdr) {
+		e.check(st, "R-PROGRESS", key+" (look-ahead index)", pos, true, "")
 		return
 	}
 	e.check(st, "R-PROGRESS", key, pos, false, fmt.Sprintf("a path around this loop does not advance the cursor (net displacement >= %d) and the loop is not a bounded counter/range loop: on some input the scan does not terminate", d))
@@ -1082,8 +1108,12 @@ func (e *Engine) compute(fi *fnInfo, st *State, in ssa.Value) AbsVal {
 			}
 			return top
 		case token.SUB:
-			if c, ok := e.eval(st, x.X).constInt(); ok {
+			v := e.eval(st, x.X)
+			if c, ok := v.constInt(); ok {
 				return intVal(-c)
+			}
+			if v.k == vMark && v.fresh && v.dlo == 0 && v.dhi == 0 {
+				return AbsVal{k: vNegPos, fresh: true} // -Pos(): minus the current selection length
 			}
 			return top
 		case token.MUL:
@@ -1094,7 +1124,7 @@ func (e *Engine) compute(fi *fnInfo, st *State, in ssa.Value) AbsVal {
 		return e.binop(st, x)
 	case *ssa.Convert:
 		v := e.eval(st, x.X)
-		if isIntType(x.Type()) && (v.k == vInt || v.k == vByte || v.k == vMark || v.k == vAtomLen || v.k == vRuneLen) {
+		if isIntType(x.Type()) && (v.k == vInt || v.k == vByte || v.k == vMark || v.k == vAtomLen || v.k == vRuneLen || v.k == vIdx || v.k == vNegPos) {
 			return v
 		}
 		return top
@@ -1131,6 +1161,12 @@ func (e *Engine) compute(fi *fnInfo, st *State, in ssa.Value) AbsVal {
 		}
 		return top
 	case *ssa.Index:
+		if b, ok := x.Type().Underlying().(*types.Basic); ok && b.Kind() == types.String {
+			return e.stringsOfValue(st, x)
+		}
+		if sv := e.eval(st, x.X); sv.k == vStrSet {
+			return strSetByte(sv, e.eval(st, x.Index))
+		}
 		return top
 	case *ssa.Slice:
 		return e.slice(fi, st, x)
@@ -1180,6 +1216,9 @@ func (e *Engine) load(st *State, x *ssa.UnOp) AbsVal {
 				return AbsVal{k: vTable, table: t, tabX: ia.Index}
 			}
 		}
+	}
+	if b, ok := x.Type().Underlying().(*types.Basic); ok && b.Kind() == types.String {
+		return e.stringsOfValue(st, x)
 	}
 	return top
 }
@@ -1242,6 +1281,16 @@ func (e *Engine) store(st *State, in *ssa.Store) {
 							for _, a := range c.Call.Args {
 								if k, ok := a.(*ssa.Const); ok && k.Value != nil && k.Value.Kind() == constant.String {
 									st.errMsg = constant.StringVal(k.Value)
+								}
+								// the message is a parameter of a recording helper (fail(msg, args...)): resolved at the call site
+								if prm, ok := a.(*ssa.Parameter); ok && st.errMsg == "?" {
+									if b, isB := prm.Type().Underlying().(*types.Basic); isB && b.Kind() == types.String {
+										for i, q := range in.Parent().Params {
+											if q == prm {
+												st.errMsg = fmt.Sprintf("\x00param:%d", i)
+											}
+										}
+									}
 								}
 							}
 						}
@@ -1367,12 +1416,24 @@ func (e *Engine) binop(st *State, x *ssa.BinOp) AbsVal {
 			if a.k == vByte && okb {
 				return AbsVal{k: vByte, set: shiftSet(a.set, int(cb))}
 			}
+			if a.k == vIdx && okb && cb >= -16 && cb <= 16 {
+				at, known := st.byteReadAt(x.X)
+				return shiftIdx(a, int(cb), at, known)
+			}
+			if b.k == vIdx && oka && ca >= -16 && ca <= 16 {
+				at, known := st.byteReadAt(x.Y)
+				return shiftIdx(b, int(ca), at, known)
+			}
 		case token.SUB:
 			if oka && okb {
 				return intVal(ca - cb)
 			}
 			if a.k == vMark && okb {
 				return shiftMark(a, -int(cb))
+			}
+			if a.k == vIdx && okb && cb >= -16 && cb <= 16 {
+				at, known := st.byteReadAt(x.X)
+				return shiftIdx(a, -int(cb), at, known)
 			}
 		}
 		return top
@@ -1474,6 +1535,23 @@ func (e *Engine) cmp(st *State, a, b AbsVal, op token.Token, xv, yv ssa.Value) A
 		if b.k == vMark {
 			// l.r.Pos() compared with another mark: undecided, no refinement
 			return top
+		}
+	case vIdx:
+		if bConst {
+			switch cmpAll(a.ilo, a.ihi, op, int(kb)) {
+			case 1:
+				return boolVal(true)
+			case -1:
+				return boolVal(false)
+			}
+			return AbsVal{k: vCmp, cmpX: xv, cmpOp: opString(op), cmpK: kb}
+		}
+		if b.k == vNegPos || b.k == vInt {
+			return AbsVal{k: vCmp, cmpX: xv, cmpOp: opString(op), cmpY: yv}
+		}
+	case vNegPos:
+		if b.k == vIdx {
+			return AbsVal{k: vCmp, cmpX: yv, cmpOp: opString(flipOp(op)), cmpY: xv}
 		}
 	case kOffset, vAtomLen, kHeapRef, kLenOf:
 		if bConst {
